@@ -448,8 +448,33 @@ def h_likelihood(env, kernels_spec, names, nctrl=1):
                 np_.linalg.slogdet = sl_saved
     if not ok:
         return
+    # evaluating the likelihood is an observation: a second evaluation returns the same number and the fitted state is untouched
+    y_before = [v for v in gp.y_mol_]
+    saved2 = _install_linalg(env, tr)
+    try:
+        if env.sym:
+            np_.linalg.slogdet = slogdet
+        ok2, lik2 = env.attempt("second_compute_likelihood_returns", lambda: gp.compute_likelihood(sigma_min=0))
+    finally:
+        _restore_linalg(tr, saved2)
+        if env.sym:
+            if sl_saved is None:
+                del np_.linalg.slogdet
+            else:
+                np_.linalg.slogdet = sl_saved
+    if ok2:
+        env.equal("second_evaluation_gives_the_same_likelihood", lik2, lik)
+    for i in range(n):
+        env.equal("labels_unchanged_by_likelihood_evaluation_%d" % i, gp.y_mol_[i], y_before[i])
+    if not env.sym and (not ok2 or abs(float(lik2) - float(lik)) > 1e-9 * (1 + abs(float(lik)))):
+        # concrete replay of a symbolic run in which the call itself could not be completed (e.g. a LAPACK routine the exact-real
+        # definitions do not cover): the first call returning is not enough
+        for o in env.obls:
+            if o.name == "compute_likelihood_returns":
+                o.got = False
+                o.meta["detail"] = "returned %r, but a second evaluation on the same fitted model returned %r" % (float(lik), float(lik2) if ok2 else None)
     K = gp.K_
-    y = gp.y_mol_
+    y = y_before
     # u = K^-1 y characterised by K u == y (alpha_mol_ of the fit, already shown to satisfy it in h_fit)
     u = gp.alpha_mol_
     quad = sum((y[i] * u[i] for i in range(n)), env.const(0))
